@@ -6,6 +6,7 @@ stops compiling and the check reports a broken obligation.
 import Pandora.Gen.GrpcStatus
 import Pandora.Model.C10
 import Pandora.Model.C10Paths
+import Pandora.Model.C10R6
 import Pandora.Spec.C10
 
 namespace Pandora.Bridge.GrpcStatus
@@ -424,5 +425,37 @@ theorem decodeAmmo_eq :
 /-- the instances' `Release` puts the ammo object back into the pool AS IT IS (`Model.C10.runAmmoPool`: the delivered
 object `a` itself goes back; the harness's pre-seeded pool states are the states a release leaves) -/
 theorem grpcProviderRelease_eq : Gen.GrpcStatus.srcGrpcProviderRelease = ["v1.Pool.Put(v2)"] := by decide
+
+/-! ## round 6: option defaults, registrations, the discarded-shot sample -/
+
+/-- the http-family guns and the defaults function each decodes its config over (`register.Gun`) -/
+theorem gunDefaultConfig_eq : Gen.GrpcStatus.gunDefaultConfig =
+    [("connect", "DefaultConnectGunConfig"), ("http", "DefaultHTTPGunConfig"), ("http/scenario", "DefaultHTTPGunConfig"),
+     ("http2", "DefaultHTTP2GunConfig"), ("http2/scenario", "DefaultHTTP2GunConfig")] := by decide
+
+/-- every defaults function builds the model's `defaultAutoTag` … -/
+theorem autoTagDefaults_model : ∀ row ∈ Gen.GrpcStatus.autoTagDefaults,
+    row.2 = (Model.C10.defaultAutoTag.enabled, Model.C10.defaultAutoTag.uriElements, Model.C10.defaultAutoTag.noTagOnly) := by decide
+
+/-- … and every registered gun's defaults function is one of them: whichever http-family gun a pool names, an `auto-tag`
+section is decoded over `Model.C10.defaultAutoTag` -/
+theorem registered_guns_autoTag_default : ∀ g ∈ Gen.GrpcStatus.gunDefaultConfig,
+    Gen.GrpcStatus.autoTagDefaults.lookup g.2 = some (false, 2, true) := by decide
+
+/-- the model's defaults are the DOCUMENTED ones (docs/eng/http-generator.md, regenerated) -/
+theorem docAutoTagDefaults_eq : Gen.GrpcStatus.docAutoTagDefaults =
+    [("no-tag-only", toString Spec.C10.docNoTagOnly), ("uri-elements", toString Spec.C10.docUriElements)] := by decide
+
+theorem defaultAutoTag_documented : Model.C10.defaultAutoTag.enabled = false ∧
+    Model.C10.defaultAutoTag.uriElements = Spec.C10.docUriElements ∧ Model.C10.defaultAutoTag.noTagOnly = Spec.C10.docNoTagOnly := by decide
+
+/-- `netsample.DiscardedShootSample()`: a NEW sample (not one of the pool) tagged `DiscardedShootTag` whose net code is set to
+`DiscardedShootCodeError` by `SetUserNet` (= `set(keyErrno, …)`): `Model.C10.discardedSample` -/
+theorem discardedShootSample_eq :
+    Gen.GrpcStatus.srcDiscardedShootSample =
+      ["v1 := &Sample{ timeStamp: time.Now(), tags: DiscardedShootTag, }", "v1.SetUserNet(DiscardedShootCodeError)", "return v1"] ∧
+    Gen.GrpcStatus.srcSetUserNet = ["v1.set(keyErrno, v2)"] ∧
+    Gen.GrpcStatus.discardedTag = Model.C10.discardedTag ∧ Gen.GrpcStatus.discardedNet = Model.C10.discardedNet ∧
+    Model.C10.discardedTag = Spec.C10.discardedTag ∧ Model.C10.discardedNet = Spec.C10.discardedNet := by decide
 
 end Pandora.Bridge.GrpcStatus
